@@ -63,6 +63,13 @@ struct Stats {
   uint64_t scoped_writes = 0, policy_writes = 0;
   uint64_t misuse_probes = 0;
   uint64_t dense_histories = 0;
+  // geometry-derived sizes (round 12): requests computed from block size / granularity / padding / next block size
+  uint64_t geom_requests = 0;               // allocations whose size came from the allocator's geometry (exact fit, +-1 granule)
+  uint64_t exact_fit_fresh = 0;             // measured: the allocation mapped a new block and filled it completely
+  uint64_t exact_fit_later_block = 0;       // ... and that block was not the first block of the allocator
+  uint64_t spill_fresh = 0;                 // measured: a geometry request mapped a new block and left free space in it
+  uint64_t exact_then_soft_reset = 0, exact_then_shrink_tail = 0, exact_then_release_all = 0;
+  uint64_t reset_dead_queries = 0, reset_retained_allocs = 0;
   std::unordered_set<uint64_t> distinct;
   std::unordered_set<uint64_t> distinct_nontrivial;
 };
@@ -368,6 +375,38 @@ struct Runner {
     }
   }
 
+  // -- geometry ------------------------------------------------------------
+  size_t last_new_block[3] {};         // size of the block each pool mapped last (what the pool doubles next), 0 = unknown
+  uintptr_t last_exact_fit = 0;        // rx of the most recent allocation that filled a fresh block completely (0 = none live)
+  bool geom_request = false;
+
+  size_t pool_of(size_t aligned_size) const {
+    if (pool_count < 3) return 0;
+    return aligned_size % (size_t(gran) * 4) == 0 ? 2 : aligned_size % (size_t(gran) * 2) == 0 ? 1 : 0;
+  }
+  // A request sized from the allocator's own geometry: the block the pool would map next (twice the last one, twice the base
+  // block size for a first block, or a multiple of the base block size beyond that), minus the initial padding of the pool
+  // the request lands in: exact fit, one granule less, one granule more (spills into the next bigger block).
+  size_t geom_size(Rng& r) {
+    size_t base = alloc->block_size();
+    size_t p = pool_count == 3 ? r.below(3) : 0;
+    size_t pg = size_t(gran) << p;
+    size_t pad = padding ? pg : 0;
+    size_t B;
+    switch (r.below(6)) {
+      case 0: case 1: B = last_new_block[p] ? last_new_block[p] * 2 : base * 2; break;   // what the pool doubles to
+      case 2: B = base * 2; break;                                                         // a first block
+      case 3: B = base * 4; break;
+      case 4: B = base * (3 + r.below(4)); break;                                          // beyond the doubling: rounded up to the base
+      default: B = base * 8; break;
+    }
+    while (B > (size_t(3) << 20) && B > base * 2) B /= 2;
+    size_t s = B - pad;
+    uint64_t d = r.below(10);
+    if (d == 0 || d == 1) s -= pg; else if (d == 2 || d == 3) s += pg;
+    return s;
+  }
+
   // -- operations ---------------------------------------------------------
   bool check_reuse = true;
   bool do_alloc(size_t size) {
@@ -375,7 +414,23 @@ struct Runner {
     JitAllocator::Span s;
     size_t before[20]; char hmsg[300];
     bool have_before = check_reuse && asmjit_verif_jitallocator_check(alloc, hmsg, sizeof hmsg, before) == 0;
+    JitAllocator::Statistics st0 = alloc->statistics();
     Error e = alloc->alloc(Out(s), size);
+    if (e == Error::kOk && size && size <= 0x7FFFFFFFull) {
+      JitAllocator::Statistics st1 = alloc->statistics();
+      if (st1.block_count() > st0.block_count()) {
+        size_t mapped = st1.reserved_size() - st0.reserved_size(), taken = st1.used_size() - st0.used_size();
+        last_new_block[pool_of(s.size())] = mapped;
+        if (taken == mapped) {
+          g_stats.exact_fit_fresh++;
+          if (st0.block_count()) g_stats.exact_fit_later_block++;
+          last_exact_fit = (uintptr_t)s.rx();
+        }
+        else if (geom_request) g_stats.spill_fresh++;
+      }
+    }
+    if (geom_request) g_stats.geom_requests++;
+    geom_request = false;
     if (have_before && e == Error::kOk) {
       size_t after[20];
       if (asmjit_verif_jitallocator_check(alloc, hmsg, sizeof hmsg, after) == 0) {
@@ -476,6 +531,7 @@ struct Runner {
 
   // returns true when the block of the forgotten span still holds another live span (so it certainly still exists)
   bool forget(uintptr_t rx) {
+    if (rx == last_exact_fit) last_exact_fit = 0;
     Live& l = live[rx];
     JitAllocator::Span sp = l.span;
     sum_live_bytes -= l.span.size();
@@ -735,6 +791,11 @@ struct Runner {
   void do_reset(bool hard) {
     log(hard ? OP_RESET_HARD : OP_RESET_SOFT);
     for (auto& kv : live) verify_contents(kv.second, "before-reset");
+    std::vector<uintptr_t> was_live;
+    if (last_exact_fit && live.count(last_exact_fit)) was_live.push_back(last_exact_fit);
+    for (auto it = live.begin(); it != live.end() && was_live.size() < 4; ++it) was_live.push_back(it->first);
+    last_exact_fit = 0;
+    if (hard) { last_new_block[0] = last_new_block[1] = last_new_block[2] = 0; }
     alloc->reset(hard ? ResetPolicy::kHard : ResetPolicy::kSoft);
     live.clear(); rwmap.clear(); order.clear(); dead.clear(); stale.clear(); block_live.clear();
     sum_live_bytes = 0;
@@ -747,6 +808,31 @@ struct Runner {
     }
     h2("after-reset");
     os_check(hard ? "after reset(kHard)" : "after reset(kSoft)", hard);
+    if (failed) return;
+    // nothing is live: what was a span before the reset must be unknown to query() now
+    for (uintptr_t p : was_live) {
+      JitAllocator::Span q;
+      g_stats.reset_dead_queries++;
+      if (alloc->query(Out(q), (void*)p) == Error::kOk) {
+        char b[200]; snprintf(b, sizeof b, "query(%p) succeeded (size=%zu) after reset(%s): the span was live before the reset, nothing is live now", (void*)p, q.size(), hard ? "kHard" : "kSoft");
+        fail("query-after-reset-succeeds", b);
+        return;
+      }
+    }
+    // a block retained by a soft reset is empty: the smallest request must be served from it, not from a new block
+    if (!hard && !immediate) {
+      size_t info[20]; char m2[300];
+      if (asmjit_verif_jitallocator_check(alloc, m2, sizeof m2, info) == 0 && info[8] >= 1) {
+        size_t blocks = alloc->statistics().block_count();
+        g_stats.reset_retained_allocs++;
+        size_t before = order.size();
+        if (do_alloc(gran) && alloc->statistics().block_count() > blocks) {
+          char b[200]; snprintf(b, sizeof b, "alloc(%u) after reset(kSoft) mapped a new block although the pool retained a block (%zu blocks before)", gran, blocks);
+          fail("reset-retained-block-not-allocatable", b);
+        }
+        if (!failed && order.size() == before + 1) do_release(order.back());   // the state after a reset stays "nothing live"
+      }
+    }
   }
 
   void do_foreign(Rng& r) {
@@ -831,10 +917,42 @@ static void random_history(const Config& cfg, uint64_t seed, size_t nops, int st
     if (R.live.empty() || (c < (dense ? 52u : 38u) && R.live.size() < max_live)) {
       size_t sz = dense ? size_t(R.gran) * (1 + r.below(3)) - (r.chance(1, 4) ? r.below(R.gran) : 0)
                 : style == 1 ? 64 * (1 + r.below(6)) : pick_size(r, block);
-      if (r.chance(1, 200)) sz = 0;
+      bool geom = !dense && r.chance(1, 16);
+      if (geom) { sz = R.geom_size(r); R.geom_request = true; }
+      if (geom) { /* the geometry size stays */ }
+      else if (r.chance(1, 200)) sz = 0;
       // (not with kFillUnusedMemory: an allocator that lost its size limit would map AND touch gigabytes per request)
       else if (!R.fill && r.chance(1, 150)) sz = kHugeSizes[r.below(sizeof(kHugeSizes) / sizeof(kHugeSizes[0]))];
-      R.do_alloc(sz);
+      uint64_t fresh_before = g_stats.exact_fit_fresh;
+      bool ok = R.do_alloc(sz);
+      if (ok && !R.failed && g_stats.exact_fit_fresh > fresh_before && R.last_exact_fit) {
+        // a fresh block was filled by this single allocation: walk the paths that depend on what the block believes about itself
+        R.h2("after-exact-fit");
+        uintptr_t ex = R.last_exact_fit;
+        switch (r.below(5)) {
+          case 0:
+            g_stats.exact_then_soft_reset++;
+            R.do_reset(false);
+            break;
+          case 1: case 2: {
+            // shrink the exact-fit span and allocate a second span in the tail it gave back, then (often) give everything back
+            size_t full = R.live[ex].span.size();
+            size_t keep = 1 + r.below(full / 2);
+            R.do_shrink(ex, keep);
+            if (R.failed || !R.live.count(ex)) break;
+            size_t tail = full - R.live[ex].span.size();
+            if (tail) { R.check_reuse = true; R.do_alloc(r.chance(1, 2) ? tail : std::max<size_t>(tail - R.gran * r.below(3), 1)); }
+            g_stats.exact_then_shrink_tail++;
+            if (!R.failed && r.chance(2, 3)) { g_stats.exact_then_release_all++; R.do_release_all(int(r.below(3)), r); }
+            break;
+          }
+          case 3:
+            g_stats.exact_then_release_all++;
+            R.do_release_all(int(r.below(3)), r);
+            break;
+          default: break;
+        }
+      }
     }
     else {
       uintptr_t rx;
@@ -1044,6 +1162,16 @@ int main(int argc, char** argv) {
     uint32_t b = 65536;
     e.sizes = { 1, g, g + 1, b / 2, b - g, b, b + 1, 3 * b };
     if (a.has("few-sizes")) e.sizes = { 1, g + 1, b - g, b + 1 };
+    if (a.has("geom-sizes")) {
+      // sizes from the allocator's geometry: E fills the first block a pool maps (twice the base block size, minus the initial
+      // padding) completely, E2 the second one; E -+ one granule; one small size for the tail / the retained block
+      bool pad = (cfg.options & 0x10u) == 0, multi = (cfg.options & 2u) != 0;
+      uint32_t base = Runner::valid_block_size(cfg.block_size) ? cfg.block_size : g_ref.block_size;
+      size_t pg = multi ? size_t(g) * 2 : g;          // several pools: the sizes below land in the pool with twice the granularity
+      size_t E = size_t(base) * 2 - (pad ? pg : 0), E2 = size_t(base) * 4 - (pad ? pg : 0);
+      e.sizes = { g, E - pg, E, E + pg, E2 };
+      if (multi) e.sizes.push_back(size_t(base) * 2 - (pad ? g : 0));
+    }
     for (int d = 1; d <= e.depth; d++) { Exh x = e; x.depth = d; x.count = 0; x.rec(0, 0); }
   }
 
@@ -1068,6 +1196,10 @@ int main(int argc, char** argv) {
       {"os_map_checks_after_destroy", g_stats.os_map_checks_after_destroy},
       {"scoped_writes", g_stats.scoped_writes}, {"policy_writes", g_stats.policy_writes},
       {"misuse_probes", g_stats.misuse_probes}, {"dense_histories", g_stats.dense_histories},
+      {"geom_requests", g_stats.geom_requests}, {"exact_fit_fresh_block", g_stats.exact_fit_fresh}, {"exact_fit_later_block", g_stats.exact_fit_later_block},
+      {"geom_spill_into_bigger_block", g_stats.spill_fresh}, {"exact_fit_then_soft_reset", g_stats.exact_then_soft_reset},
+      {"exact_fit_then_shrink_and_tail_alloc", g_stats.exact_then_shrink_tail}, {"exact_fit_then_release_all", g_stats.exact_then_release_all},
+      {"reset_dead_queries", g_stats.reset_dead_queries}, {"reset_retained_block_allocs", g_stats.reset_retained_allocs},
     };
     bool f = true;
     for (auto& d : dims) { printf("%s\"%s\":%llu", f ? "" : ",", d.first, (unsigned long long)d.second); f = false; }
